@@ -223,6 +223,22 @@ impl Run<'_> {
                         // created from votes: valid for every receiver, signers = accepted votes, threshold met
                         let ok = ValidatedCert::try_new(c.clone(), sim.epoch.epoch_info());
                         self.rec.oracle(ok.is_ok(), "created-cert-invalid", || format!("{op}: locally created {fc} fails validation: {:?}", ok.as_ref().err()));
+                        // ... and it reaches every receiver: what the node broadcasts are the wincode bytes of the message; the
+                        // peer decodes them with `network::deserialize` and validates the result against the epoch
+                        let wire = wincode::serialize(&alpenglow::consensus::ConsensusMessage::Cert(c.clone()));
+                        let back = wire.as_ref().ok().map(|b| alpenglow::network::deserialize::<alpenglow::consensus::ConsensusMessage>(b));
+                        let at_peer = match &back {
+                            Some(Ok(alpenglow::consensus::ConsensusMessage::Cert(c2))) => {
+                                if c2 != c { Err("decodes to a different certificate".to_string()) }
+                                else { ValidatedCert::try_new(c2.clone(), sim.epoch.epoch_info()).map(|_| ()).map_err(|e| format!("the decoded certificate fails validation: {e:?}")) }
+                            }
+                            Some(Ok(_)) => Err("decodes to a vote".to_string()),
+                            Some(Err(e)) => Err(format!("the receiver cannot decode it: {e:?}")),
+                            None => Err(format!("cannot be serialized: {:?}", wire.as_ref().err())),
+                        };
+                        let nbytes = wire.as_ref().map(|b| b.len()).unwrap_or(0);
+                        self.rec.oracle(at_peer.is_ok() && nbytes <= alpenglow::network::MTU_BYTES, "created-cert-wire", || format!("{op}: locally created {fc} (epoch of {} validators, {nbytes} bytes on the wire) is not accepted by a peer: {}", sim.n, at_peer.as_ref().err().cloned().unwrap_or_else(|| "larger than one datagram".into())));
+                        if sim.n > 64 { self.rec.count(if sim.n > 128 { "created-cert-wire:n>128" } else { "created-cert-wire:n>64" }); }
                         let (a, bb) = c.verif_signer_halves();
                         let a: BTreeSet<usize> = a.iter().map(|v| v.as_usize()).collect();
                         let bb: BTreeSet<usize> = bb.iter().map(|v| v.as_usize()).collect();
@@ -255,6 +271,23 @@ impl Run<'_> {
                 }
                 _ => {}
             }
+        }
+        // ---- C08 (second sentence): once a slot is decided the node retains nothing older - after every call no component
+        // of the pool keeps state for a slot below the watermark (slot states, parent-ready states, the safe-to-notar
+        // waiting map, finality statuses and parent links), and the parent-ready tracker's root is the watermark
+        {
+            let ret = sim.pool.verif_retained_slots();
+            let (root, prs) = sim.pool.verif_parent_ready_states();
+            let s2n = sim.pool.verif_s2n_waiting();
+            let (fst, fpar) = sim.pool.verif_finality_state();
+            let low = ret.iter().map(|s| ("slot state", s.inner())).chain(prs.iter().map(|e| ("parent-ready state", e.0.inner())))
+                .chain(s2n.iter().map(|e| ("safe-to-notar waiter", e.1.0.inner()))).chain(fst.iter().map(|e| ("finality status", e.0.inner())))
+                .chain(fpar.iter().map(|e| ("parent link", e.0.0.inner()))).min_by_key(|x| x.1);
+            self.rec.oracle(low.is_none_or(|l| l.1 >= fu) && root.inner() == fu, "c08-pool-retains-below-watermark", || {
+                let held: Vec<String> = low.map(|l| sim.pool.verif_certs(Slot::new(l.1)).iter().map(|c| fmt_cert(keys, c)).collect()).unwrap_or_default();
+                format!("{op}: after the call the pool retains a {} for slot {} (holding {held:?}; parent-ready root {}) although every slot below {fu} is decided (highest finalized slot {})",
+                    low.map(|l| l.0).unwrap_or("-"), low.map(|l| l.1).unwrap_or(0), root.inner(), sim.pool.finalized_slot().inner())
+            });
         }
         // ---- state oracles after the step, for retained slots
         let slots: Vec<u64> = sim.book.keys().copied().filter(|s| *s >= fu).collect();
@@ -628,7 +661,18 @@ fn run_script(run: &mut Run, keys: &Keys, text: &str, tag: &str) {
 }
 
 fn stake_shape(rng: &mut Rng, n: usize) -> (Vec<u64>, &'static str) {
-    match rng.below(7) {
+    match rng.below(9) {
+        // validators without stake (they are members of the epoch, their votes are validly signed: everything the property
+        // says about a validator's votes - duplicates, conflicts, certificates list them as signers - holds for them too);
+        // the first one has a low index (the conflict plans use validators 0..2)
+        7 | 8 if n >= 3 => {
+            let two = rng.chance(1, 2) && n >= 4;
+            let mut v: Vec<u64> = match rng.below(3) { 0 => vec![1; n], 1 => (0..n).map(|_| rng.range(1, 9)).collect(), _ => (0..n).map(|_| 5 * rng.range(1, 4)).collect() };
+            let z0 = rng.below(3) as usize;
+            v[z0] = 0;
+            if two { let z1 = (z0 + 1 + rng.below(n as u64 - 1) as usize) % n; v[z1] = 0; }
+            (v, if two { "zero2" } else { "zero1" })
+        }
         0 => (vec![1; n], "equal"),
         1 => ((0..n).map(|i| 1u64 << (i % 10)).collect(), "pow2"),
         2 => { let mut v = vec![1u64; n]; let rest = (n as u64 - 1).max(1); v[0] = rest * 3 / 2 + rng.below(3); (v, "whale60") }
@@ -645,7 +689,7 @@ fn main() {
     quiet_panics();
     let mut rng = Rng::new(args.seed);
     let mut krng = Rng::new(0xA1A1); // keys do not depend on the seed (vote caches stay valid)
-    let keys = Keys::new(&mut krng);
+    let keys = Keys::with_validators(&mut krng, BIGN);
     let focus = args.extra.iter().position(|a| a == "--focus").map(|i| args.extra[i + 1].clone()).unwrap_or_else(|| "C03".into());
     let rt = tokio::runtime::Builder::new_current_thread().build().expect("rt");
     let mut run = Run { keys: &keys, rec: Recorder::new(), rt, class: 0, focus: focus.clone(), dead: false, safety_panic: false, log: None, evlog: Vec::new() };
@@ -673,22 +717,80 @@ fn main() {
     // directed shape `epoch-boundary` (every focus, own random stream): chains that cross an epoch boundary
     let nboundary = if args.thorough { 40 } else { 6 };
     let mut erng = Rng::new(args.seed ^ 0xE90C_B0DA);
+    // directed shape `big-epoch` (own random stream): epochs of more than 64 / more than 128 validators (the signer
+    // bitmask of a certificate spans several machine words) whose quorums are formed by the validators with low indices
+    let nbig = if args.thorough { 12 } else { 3 };
+    let mut brng = Rng::new(args.seed ^ 0xB16_E90C);
+    for ci in 0..nbig {
+        let rng = &mut brng;
+        let n = match ci % 3 { 0 => rng.range(65, 100), 1 => rng.range(129, 150), _ => *rng.pick(&[64, 65, 127, 128, 129, 191, 192, 193, BIGN as u64]) } as usize;
+        let (stakes, shape): (Vec<u64>, &str) = if rng.chance(1, 3) && n <= 150 { (vec![1; n], "equal") } else {
+            // the first third of the validators holds > 80 % of the stake
+            let m = n / 3;
+            ((0..n).map(|i| if i < m { rng.range(12, 14) } else if rng.chance(1, 20) { 0 } else { 1 }).collect(), "heavy-low")
+        };
+        let own = rng.below(n as u64) as usize;
+        let mut sim = Sim::new(&keys, stakes.clone(), own);
+        run.class = 0; run.dead = false; run.safety_panic = false;
+        run.rec.begin_case(&format!("big-epoch/{shape}/n{n}"));
+        run.rec.step(&format!("epoch {} {}", own, stakes.iter().map(|s| s.to_string()).collect::<Vec<_>>().join(" ")), &format!("epoch n={} total={}", n, sim.total));
+        gen_big_case(&mut run, &mut sim, rng);
+        let class = run.class;
+        run.rec.end_case(class, true);
+    }
+    // directed shapes with their own random stream (the cases of the main stream do not depend on them):
+    //  cert-then-votes  a certificate of every kind is RECEIVED while the local votes of its class are still below the
+    //                   threshold (or before any, or after they crossed); the votes then cross it: one certificate per type
+    //  s2n-pair         two or three competing blocks of one slot (one hash group) are pending for safe-to-notar at once
+    //                   (each >= 20 % and < 40 % notar, parent certified, own skip vote in) and ONE skip vote lifts
+    //                   notar + skip to >= 60 % for all of them
+    //  s2n-late-parent  a child is eligible for safe-to-notar but its parent holds no certificate yet; a LATER slot is
+    //                   finalized (the child's slot stays undecided: gap); then the parent's certificate arrives
+    let ndirected = if args.thorough { 60 } else { 9 };
+    let mut drng = Rng::new(args.seed ^ 0xD12E_C7ED);
+    for ci in 0..ndirected {
+        let rng = &mut drng;
+        let kind = ["cert-then-votes", "s2n-pair", "s2n-late-parent"][ci % 3];
+        let (stakes, shape): (Vec<u64>, &str) = if kind == "cert-then-votes" { let n = rng.range(3, 12) as usize; stake_shape(rng, n) } else {
+            // equal stakes (sometimes a few validators without stake on top): the same vote lifts every pending block
+            let mut v = vec![1u64; rng.range(10, 16) as usize];
+            if rng.chance(1, 4) { v.push(0); }
+            (v, "equal")
+        };
+        let n = stakes.len();
+        let own = rng.below(n as u64) as usize;
+        let own = if stakes[own] == 0 { 0 } else { own };
+        let mut sim = Sim::new(&keys, stakes.clone(), own);
+        run.class = 0; run.dead = false; run.safety_panic = false;
+        run.rec.begin_case(&format!("{kind}/{shape}/n{n}"));
+        run.rec.step(&format!("epoch {} {}", own, stakes.iter().map(|s| s.to_string()).collect::<Vec<_>>().join(" ")), &format!("epoch n={} total={}", n, sim.total));
+        match kind {
+            "cert-then-votes" => gen_cert_then_votes(&mut run, &mut sim, rng),
+            "s2n-pair" => gen_s2n_pair(&mut run, &mut sim, rng),
+            _ => gen_s2n_late_parent(&mut run, &mut sim, rng),
+        }
+        let class = run.class;
+        run.rec.end_case(class, true);
+    }
     for ci in 0..nboundary + cases {
         let boundary = ci < nboundary;
         let rng = if boundary { &mut erng } else { &mut rng };
         let n = match rng.below(10) { 0 => 1, 1 => 2, 2 => 3, 3..=6 => rng.range(4, 8) as usize, 7..=8 => rng.range(9, 14) as usize, _ => rng.range(15, 24) as usize };
-        let (stakes, shape) = stake_shape(rng, n);
+        let (mut stakes, mut shape) = stake_shape(rng, n);
+        let plan = if boundary { "epoch-boundary" } else { match focus.as_str() {
+            "C04" => *rng.pick(&["conflicts", "legit", "mixed"]),
+            "C06" => *rng.pick(&["s2n", "s2n", "s2s", "mixed"]),
+            "C18" => *rng.pick(&["chain", "chain", "mixed", "gap"]),
+            _ => *rng.pick(&["quorums", "quorums", "mixed", "chain", "s2n", "gap"]),
+        } };
+        // plan `gap` wants one validator whose single vote lifts a block from < 60 % to >= 80 %
+        if plan == "gap" && rng.chance(3, 4) { stakes = lift_stakes(rng); shape = "whale-lift"; }
+        let n = stakes.len();
         let own = rng.below(n as u64) as usize;
         let mut sim = Sim::new(&keys, stakes.clone(), own);
         run.class = 0;
         run.dead = false;
         run.safety_panic = false;
-        let plan = if boundary { "epoch-boundary" } else { match focus.as_str() {
-            "C04" => *rng.pick(&["conflicts", "legit", "mixed"]),
-            "C06" => *rng.pick(&["s2n", "s2n", "s2s", "mixed"]),
-            "C18" => *rng.pick(&["chain", "chain", "mixed"]),
-            _ => *rng.pick(&["quorums", "quorums", "mixed", "chain", "s2n"]),
-        } };
         run.rec.begin_case(&format!("{plan}/{shape}/n{n}"));
         run.rec.step(&format!("epoch {} {}", own, stakes.iter().map(|s| s.to_string()).collect::<Vec<_>>().join(" ")), &format!("epoch n={} total={}", n, sim.total));
         // C18: every case is afterwards replayed against a tiny, lagging queue towards Votor
@@ -698,13 +800,236 @@ fn main() {
             run.evlog.clear();
             Some((brng.range(1, 2) as usize, *brng.pick(&[0usize, 2, 40, 1000]), brng.range(1, 3) as usize))
         } else { None };
-        if boundary { gen_boundary_case(&mut run, &mut sim, rng); } else { gen_case(&mut run, &mut sim, rng, plan); }
+        if boundary { gen_boundary_case(&mut run, &mut sim, rng); } else if plan == "gap" { gen_gap_case(&mut run, &mut sim, rng); } else { gen_case(&mut run, &mut sim, rng, plan); }
         if let Some((cap, start_lag, lag)) = bp { run.replay_backpressure(&sim, cap, start_lag, lag); }
         let class = run.class;
         run.rec.end_case(class, true);
     }
     let extra = serde_json::json!({ "focus": run.focus });
     run.rec.finish(&args, extra);
+}
+
+/// number of validator keys (largest generated epoch)
+const BIGN: usize = 200;
+
+/// Epochs whose certificates need a signer bitmask of more than one (more than two) 64-bit words.  The votes come from the
+/// validators with the lowest indices (in index order or shuffled among themselves) and stop as soon as the quorum is
+/// reached, so the high words of the bitmask stay empty: notarization + finalization of one block (notar, notar-fallback,
+/// fast-final and final certificates), a skipped slot (skip + skip-fallback votes), a notar / notar-fallback mix.
+/// Every created certificate must be accepted by a peer from its wire bytes (`created-cert-wire`).
+fn gen_big_case(run: &mut Run, sim: &mut Sim, rng: &mut Rng) {
+    let low_until = |sim: &Sim, num: u64| -> Vec<usize> {
+        let mut acc = 0; let mut out = Vec::new();
+        for v in 0..sim.n { if met(num, acc, sim.total) { break; } out.push(v); acc += sim.stakes[v]; }
+        out
+    };
+    let goff = rng.below(8) as usize * 4;
+    let order = |rng: &mut Rng, mut vs: Vec<usize>| { if rng.chance(1, 2) { rng.shuffle(&mut vs); } vs };
+    // slot 1: block, notarized by >= 80 %, finalized by >= 60 %
+    let h1 = goff + 1;
+    run.block(sim, (1, h1), (0, 0));
+    for v in order(rng, low_until(sim, 4)) { run.vote(sim, K::Notar, 1, h1, v, true); }
+    for v in order(rng, low_until(sim, 3)) { run.vote(sim, K::Final, 1, 0, v, true); }
+    // slot 2: skipped by skip + skip-fallback votes of >= 60 %
+    let sk = order(rng, low_until(sim, 3));
+    let cut = rng.below(sk.len() as u64 + 1) as usize;
+    for (i, v) in sk.iter().enumerate() { run.vote(sim, if i < cut { K::Skip } else { K::Sf }, 2, 0, *v, true); }
+    // slot 3: notar + notar-fallback votes for one block reach 60 % together
+    let h3 = goff + 5;
+    let nn = order(rng, low_until(sim, 3));
+    let cut = rng.below(nn.len() as u64 + 1) as usize;
+    for (i, v) in nn.iter().enumerate() { run.vote(sim, if i < cut { K::Notar } else { K::Nf }, 3, h3, *v, true); }
+    run.recover(sim);
+}
+
+/// Received certificate + local votes of the same class, for every certificate kind, in 1..3 slots: the certificate arrives
+/// before any vote / between the votes (mostly before they reach the threshold) / after all of them.
+fn gen_cert_then_votes(run: &mut Run, sim: &mut Sim, rng: &mut Rng) {
+    let goff = rng.below(8) as usize * advhash::GROUP as usize;
+    let nslots = rng.range(1, 3);
+    for s in 1..=nslots {
+        let h = goff + 4 * s as usize - 3;
+        let ck = *rng.pick(&[CK::Notar, CK::Nf, CK::Skip, CK::Ff, CK::Final, CK::Final]);
+        if rng.chance(1, 2) { run.block(sim, (s, h), if s == 1 { (0, 0) } else { (s - 1, goff + 4 * (s as usize - 1) - 3) }); }
+        let signers = subset_reaching(sim, rng, if ck == CK::Ff { 4 } else { 3 });
+        let (ca, cb) = if matches!(ck, CK::Nf | CK::Skip) { let cut = rng.below(signers.len() as u64 + 1) as usize; (signers[..cut].to_vec(), signers[cut..].to_vec()) } else { (signers, vec![]) };
+        let mut voters = subset_reaching(sim, rng, if ck == CK::Ff { 4 } else { 3 });
+        rng.shuffle(&mut voters);
+        let votes: Vec<(K, usize)> = voters.iter().map(|&v| (match ck {
+            CK::Notar | CK::Ff => K::Notar,
+            CK::Nf => if rng.chance(1, 2) { K::Notar } else { K::Nf },
+            CK::Skip => if rng.chance(1, 2) { K::Skip } else { K::Sf },
+            CK::Final => K::Final,
+        }, v)).collect();
+        let at = match rng.below(4) { 0 => 0, 1 => votes.len(), _ => rng.below(votes.len() as u64 + 1) as usize };
+        for (i, (k, v)) in votes.iter().enumerate() {
+            if i == at { run.cert(sim, ck, s, h, &ca, &cb); }
+            run.vote(sim, *k, s, h, *v, false);
+            if rng.chance(1, 10) { run.vote(sim, *k, s, h, *v, false); }
+        }
+        if at == votes.len() { run.cert(sim, ck, s, h, &ca, &cb); }
+        if rng.chance(1, 3) { run.recover(sim); }
+    }
+    run.recover(sim);
+}
+
+/// Several competing blocks of slot 2 pending for safe-to-notar at once (equal stakes): the parent (slot 1) is certified, the
+/// node itself voted skip, each block has k notar votes with 20 % <= k/n < 40 %; then the skip votes arrive one by one -
+/// the one that takes notar + skip to >= 60 % does so for every pending block.  2 in 3 cases in this order, else shuffled.
+fn gen_s2n_pair(run: &mut Run, sim: &mut Sim, rng: &mut Rng) {
+    let voters: Vec<usize> = (0..sim.n).filter(|v| sim.stakes[*v] > 0).collect();
+    let n = voters.len() as u64;
+    let goff = rng.below(8) as usize * advhash::GROUP as usize;
+    let (hp, h0) = (goff + 1, goff + 5);
+    let ks: Vec<u64> = (1..n).filter(|k| 5 * k >= n && 5 * k < 2 * n).collect();
+    let k = *rng.pick(&ks);
+    let m = (3 * n).div_ceil(5) - k;
+    let nb = if 3 * k + m <= n && rng.chance(1, 2) { 3 } else { 2 };
+    #[derive(Clone)]
+    enum Op { V(K, u64, usize, usize), C(CK, u64, usize, Vec<usize>), B((u64, usize), (u64, usize)) }
+    let mut pre: Vec<Op> = vec![Op::B((1, hp), (0, 0))];
+    for b in 0..nb { pre.push(Op::B((2, h0 + b), (1, hp))); }
+    let pck = *rng.pick(&[CK::Notar, CK::Nf, CK::Ff]);
+    let a = subset_reaching(sim, rng, if pck == CK::Ff { 4 } else { 3 });
+    pre.push(Op::C(pck, 1, hp, a));
+    pre.push(Op::V(K::Skip, 2, 0, sim.own));
+    let mut rest: Vec<usize> = voters.iter().copied().filter(|v| *v != sim.own).collect();
+    rng.shuffle(&mut rest);
+    for b in 0..nb { for _ in 0..k { let v = rest.pop().expect("enough validators"); pre.push(Op::V(K::Notar, 2, h0 + b, v)); } }
+    rng.shuffle(&mut pre);
+    let mut ops = pre;
+    for _ in 0..(m - 1).min(rest.len() as u64) { let v = rest.pop().expect("validator"); ops.push(Op::V(K::Skip, 2, 0, v)); }
+    for v in rest { if rng.chance(1, 2) { ops.push(Op::V(K::Skip, 2, 0, v)); } }
+    if rng.chance(1, 3) { rng.shuffle(&mut ops); }
+    for op in ops {
+        match op {
+            Op::V(k, s, h, v) => run.vote(sim, k, s, h, v, true),
+            Op::C(ck, s, h, a) => run.cert(sim, ck, s, h, &a, &[]),
+            Op::B(b, p) => run.block(sim, b, p),
+        }
+    }
+    run.recover(sim);
+}
+
+/// The parent's certificate arrives when a later slot is already finalized: parent P in slot 1 (registered, not certified),
+/// child C in slot 2 or 3 eligible for safe-to-notar but for the parent certificate (own skip vote, >= 40 % notar - or >= 20 %
+/// notar and >= 60 % with the skip votes), slot f > slot(C) fast-finalized by a received certificate (nothing links it to C's
+/// slot, which stays undecided and retained), then P's notar / notar-fallback / fast-final certificate: C is safe to notar now.
+fn gen_s2n_late_parent(run: &mut Run, sim: &mut Sim, rng: &mut Rng) {
+    let voters: Vec<usize> = (0..sim.n).filter(|v| sim.stakes[*v] > 0).collect();
+    let n = voters.len() as u64;
+    let goff = rng.below(8) as usize * advhash::GROUP as usize;
+    let sc = rng.range(2, 3);
+    let (hp, hc, hf) = (goff + 1, goff + 5 + rng.below(2) as usize, goff + 13);
+    let f = sc + rng.range(1, 3);
+    run.block(sim, (1, hp), (0, 0));
+    run.block(sim, (sc, hc), (1, hp));
+    let mut rest: Vec<usize> = voters.iter().copied().filter(|v| *v != sim.own).collect();
+    rng.shuffle(&mut rest);
+    let mut votes: Vec<(K, usize)> = vec![(K::Skip, sim.own)];
+    if rng.chance(1, 2) {
+        for _ in 0..(2 * n).div_ceil(5) { votes.push((K::Notar, rest.pop().expect("validator"))); }
+    } else {
+        let k = n.div_ceil(5);
+        for _ in 0..k { votes.push((K::Notar, rest.pop().expect("validator"))); }
+        for _ in 0..(3 * n).div_ceil(5) - k - 1 { votes.push((K::Skip, rest.pop().expect("validator"))); }
+    }
+    rng.shuffle(&mut votes);
+    for (k, v) in votes { run.vote(sim, k, sc, hc, v, true); }
+    let a = subset_reaching(sim, rng, 4);
+    run.cert(sim, CK::Ff, f, hf, &a, &[]);
+    if rng.chance(1, 3) { run.recover(sim); }
+    let ck = *rng.pick(&[CK::Notar, CK::Nf, CK::Ff]);
+    let a = subset_reaching(sim, rng, if ck == CK::Ff { 4 } else { 3 });
+    run.cert(sim, ck, 1, hp, &a, &[]);
+    run.recover(sim);
+}
+
+/// stakes with one validator holding 30..58 % and the others 1..3 units each (sometimes one of them nothing)
+fn lift_stakes(rng: &mut Rng) -> Vec<u64> {
+    let n = rng.range(2, 8) as usize;
+    let mut v: Vec<u64> = (0..n - 1).map(|_| rng.range(1, 3)).collect();
+    if n >= 4 && rng.chance(1, 4) { v[0] = 0; }
+    let o: u64 = v.iter().sum();
+    let (lo, hi) = (((43 * o).div_ceil(100)).max(1), ((138 * o) / 100).max(1));
+    let w = rng.range(lo, hi.max(lo));
+    v.insert(rng.below(n as u64) as usize, w);
+    v
+}
+
+/// a validator with more than 20 % of the stake and a set of others holding < 60 % that reaches >= 80 % together with it
+fn lift_plan(sim: &Sim, rng: &mut Rng) -> Option<(Vec<usize>, usize)> {
+    let cands: Vec<usize> = (0..sim.n).filter(|v| 5 * (sim.stakes[*v] as u128) > sim.total as u128).collect();
+    if cands.is_empty() { return None; }
+    for _ in 0..8 {
+        let w = *rng.pick(&cands);
+        let mut others: Vec<usize> = (0..sim.n).filter(|v| *v != w).collect();
+        rng.shuffle(&mut others);
+        let (mut acc, mut before) = (0u64, Vec::new());
+        for v in others { if met(4, acc + sim.stakes[w], sim.total) { break; } before.push(v); acc += sim.stakes[v]; }
+        if met(4, acc + sim.stakes[w], sim.total) && !met(3, acc, sim.total) { return Some((before, w)); }
+    }
+    None
+}
+
+/// Gap slot decided by votes (C08, D30): the slots below g are finalized; slot g+1 gets finalized (votes or certificates)
+/// and slot g receives its finalization certificate (votes or certificate) while its block is not yet notarized: g is an
+/// undecided gap below the highest finalized slot.  Then the notarization votes for g's block arrive, the last one from a
+/// validator heavy enough to lift the block from < 60 % to >= 80 % at once: the notarization and the fast-finalization
+/// certificate are created by the same call, the first decides the slot and moves the watermark past it.  Sometimes the
+/// blocks are registered (g is then decided through the parent link of g+1), sometimes a competing block of g gets a
+/// vote, sometimes everything arrives fully shuffled.  Whatever the order: the retained-state, timeliness and verdict
+/// oracles hold after every call.
+fn gen_gap_case(run: &mut Run, sim: &mut Sim, rng: &mut Rng) {
+    let g = rng.range(1, 4);
+    let goff = rng.below(8) as usize * advhash::GROUP as usize;
+    let hg = goff + 1 + rng.below(2) as usize;
+    let hg_other = if hg == goff + 1 { goff + 2 } else { goff + 1 };
+    let hn = goff + 5;
+    let hlow = |s: u64| goff + 8 + s as usize * 4 - 3;
+    // decided prefix below g
+    for s in 1..g {
+        let a = subset_reaching(sim, rng, 4);
+        if rng.chance(1, 2) { run.block(sim, (s, hlow(s)), if s == 1 { (0, 0) } else { (s - 1, hlow(s - 1)) }); }
+        run.cert(sim, CK::Ff, s, hlow(s), &a, &[]);
+    }
+    #[derive(Clone)]
+    enum Op { V(K, u64, usize, usize), C(CK, u64, usize, Vec<usize>, Vec<usize>), B((u64, usize), (u64, usize)) }
+    let mut ops: Vec<Op> = Vec::new();
+    // slot g+1 finalized
+    match rng.below(4) {
+        0 => { for v in subset_reaching(sim, rng, 4) { ops.push(Op::V(K::Notar, g + 1, hn, v)); } }
+        1 => { for v in subset_reaching(sim, rng, 3) { ops.push(Op::V(K::Notar, g + 1, hn, v)); } for v in subset_reaching(sim, rng, 3) { ops.push(Op::V(K::Final, g + 1, 0, v)); } }
+        2 => { let a = subset_reaching(sim, rng, 4); ops.push(Op::C(CK::Ff, g + 1, hn, a, vec![])); }
+        _ => { let (a, b) = (subset_reaching(sim, rng, 3), subset_reaching(sim, rng, 3)); ops.push(Op::C(CK::Notar, g + 1, hn, a, vec![])); ops.push(Op::C(CK::Final, g + 1, 0, b, vec![])); }
+    }
+    // finalization certificate of g
+    if rng.chance(2, 3) { for v in subset_reaching(sim, rng, 3) { ops.push(Op::V(K::Final, g, 0, v)); } } else { let a = subset_reaching(sim, rng, 3); ops.push(Op::C(CK::Final, g, 0, a, vec![])); }
+    if rng.chance(1, 3) {
+        ops.push(Op::B((g, hg), if g == 1 { (0, 0) } else { (g - 1, hlow(g - 1)) }));
+        if rng.chance(2, 3) { ops.push(Op::B((g + 1, hn), (g, hg))); }
+    }
+    // notarization votes of g: the lifting vote last
+    let lift = lift_plan(sim, rng);
+    run.rec.count(if lift.is_some() { "gap:lifting-vote" } else { "gap:no-lifting-validator" });
+    let (before, last): (Vec<usize>, Vec<usize>) = match lift { Some((b, w)) => (b, vec![w]), None => (subset_reaching(sim, rng, 4), vec![]) };
+    let voters: BTreeSet<usize> = before.iter().chain(last.iter()).copied().collect();
+    if rng.chance(1, 3) { if let Some(x) = (0..sim.n).find(|v| !voters.contains(v)) { ops.push(Op::V(K::Notar, g, hg_other, x)); } }
+    let early = rng.chance(1, 2);
+    if early { for &v in &before { ops.push(Op::V(K::Notar, g, hg, v)); } }
+    rng.shuffle(&mut ops);
+    if !early { for &v in &before { ops.push(Op::V(K::Notar, g, hg, v)); } }
+    for &v in &last { ops.push(Op::V(K::Notar, g, hg, v)); }
+    if rng.chance(1, 5) { rng.shuffle(&mut ops); }
+    for op in ops {
+        match op {
+            Op::V(k, s, h, v) => run.vote(sim, k, s, h, v, true),
+            Op::C(ck, s, h, a, b) => run.cert(sim, ck, s, h, &a, &b),
+            Op::B(b, p) => run.block(sim, b, p),
+        }
+        if rng.chance(1, 15) { run.recover(sim); }
+    }
+    run.recover(sim);
 }
 
 /// random subset of validators reaching at least `num`/5 of the stake (in random order), possibly just
@@ -775,9 +1100,12 @@ fn gen_case(run: &mut Run, sim: &mut Sim, rng: &mut Rng, plan: &str) {
     let base: u64 = if rng.chance(1, 4) { rng.range(1, 9) } else { 1 };
     let nslots = rng.range(1, 6);
     // block tree: per slot 1..3 blocks with parents in earlier slots (or genesis)
+    // the competing blocks of one slot are the members of one hash group (`advhash`: they differ in a single byte,
+    // early or late depending on the group); ascending ids = ascending slots
     let mut blocks: Vec<(u64, usize, u64, usize)> = Vec::new();
-    let mut next_h = 1usize;
-    for s in base..base + nslots {
+    let goff = rng.below(10) as usize;
+    for (k, s) in (base..base + nslots).enumerate() {
+        let mut next_h = advhash::GROUP as usize * (goff + k) + 1;
         for _ in 0..rng.range(1, 3) {
             let cands: Vec<(u64, usize)> = blocks.iter().filter(|b| b.0 < s).map(|b| (b.0, b.1)).collect();
             let p = if cands.is_empty() || rng.chance(1, 6) { (0u64, 0usize) } else { *rng.pick(&cands) };
